@@ -228,6 +228,7 @@ func main() {
 	conc.ParamStorm(run)
 	conc.TruncateStorm(run)
 	conc.FirstUse(run)
+	conc.SharedSeq(run)
 	run.Count("operations_recorded", totalOps)
 	run.Count("reads_overlapping_a_committed_write_same_key", contended)
 	run.Count("distinct_history_signatures", int64(len(sigs)))
@@ -417,6 +418,14 @@ func write(f *fox.Router, rc interface{ IntN(int) int }, c, ki int, gid int64, c
 			case 1:
 				if sn := txn.Snapshot(); sn != nil {
 					sn.Len()
+					// the consumer is done with its read-only view and says so, one way or the other; the writer that
+					// took it is still open, and other writers are waiting
+					if rc.IntN(2) == 0 {
+						sn.Abort()
+					} else {
+						sn.Commit()
+					}
+					runtime.Gosched()
 				}
 			}
 			if abort {
